@@ -569,7 +569,7 @@ func c10Bytes(c *Check) {
 			case modulePkg + ".Delivery.AddRcpt":
 				// the argument is the range value over meta.To
 				for _, rs := range rangesIn(r.FI.Decl.Body, func(rs *ast.RangeStmt) bool {
-					return isField(info, rs.X, "QueueMetadata", "To") && posIn(rs.Body, call.Pos())
+					return isField(info, rs.X, "QueueMetadata", "To") && within(rs.Body, call)
 				}) {
 					if rs.Value != nil && len(call.Args) >= 2 && objOf(info, call.Args[1]) == objOf(info, rs.Value) {
 						okRcpt = true
